@@ -146,6 +146,11 @@ def _fit_voronoi(case, setting, j):
             # a failure in the history: a warm start asking for fewer selections than were made is refused, then corrected
             est.n_to_select = int(est.n_selected_) - 1
             forms.rejected(j, "shrinking warm start", sel.fit, est, X, None, spec, warm=True)
+            # ... and a cold refit refused for an illegal switching point: the fit made before it stands
+            ff_ = est.full_fraction
+            est.full_fraction = (2.0, -0.5, "half")[li % 3]
+            forms.rejected(j, "cold refit with an illegal switching point", sel.fit, est, X, None, spec)
+            est.full_fraction = ff_
         if li > 0 and setting.get("carry", "same") != "same":
             # the chain continues on a deep copy / an unpickled copy of the fitted object
             tr.detach()
